@@ -146,6 +146,9 @@ fn asset(name: &str) -> Arc<Vec<u8>> {
     let bytes = if let Some(rest) = name.strip_prefix("signed:") {
         let (file, format) = rest.split_once('|').expect("signed:<file>|<format>");
         sdk::sign_simple(format, &asset(file), "c35 prepared").unwrap_or_else(|e| panic!("prepare {name}: {e}"))
+    } else if let Some(kind) = name.strip_prefix("synth:") {
+        // the simplest valid instance of a container from the shared synthesiser (a few hundred bytes)
+        vh::assets::synth_default(kind).bytes
     } else if let Some(rest) = name.strip_prefix("head64k:") {
         // the first 64 KiB of a large audio fixture: tag/metadata blocks intact, payload cut (copied verbatim by the SDK)
         let mut b = sdk::fixture(rest);
@@ -374,7 +377,26 @@ fn exec(op: &IoOp, src_w: &Wrap, dst_w: &Wrap, selftest: bool) -> Exec {
     };
     let result = vh::catch(|| -> c2pa::Result<Res> {
         match op.kind.as_str() {
-            "sign" => {
+            "replace" => {
+                // handler entry point: write a store into an asset that already carries one (its own store again)
+                let store = sdk::store_of(&op.format, &a)?;
+                let mut s = wrap(Shared::new(a.to_vec()), src_w, selftest, &stats);
+                let dst = Shared::new(Vec::new());
+                let mut d = wrap(dst.clone(), dst_w, selftest, &stats);
+                c2pa::jumbf_io::save_jumbf_to_stream(&op.format, &mut s, &mut d, &store)?;
+                drop(d);
+                let out = dst.contents();
+                let mut r = res_of_output(&op.format, &out, None);
+                r.content = [vh::digest(&out), 0]; // nothing is randomised here: the bytes themselves must agree
+                Ok(r)
+            }
+            "loadjumbf" => {
+                let mut s = wrap(Shared::new(a.to_vec()), src_w, selftest, &stats);
+                let st = c2pa::jumbf_io::load_jumbf_from_stream(&op.format, &mut s)?;
+                Ok(Res { state: "store".into(), codes: vec![], size: st.len(), report: String::new(), content: [vh::digest(&st), 0] })
+            }
+            // "resign": the source already carries a manifest signed by the harness (the old store must be replaced)
+            "sign" | "resign" => {
                 let mut s = wrap(Shared::new(a.to_vec()), src_w, selftest, &stats);
                 let dst = Shared::new(Vec::new());
                 let mut d = wrap(dst.clone(), dst_w, selftest, &stats);
@@ -500,6 +522,7 @@ struct ChunkCase {
 /// Container label for signatures: the fixture's file extension ("signed:x.mp3|audio/mpeg" -> "mp3").
 fn ext_label(op: &IoOp) -> String {
     let f = op.file.split('|').next().unwrap_or(&op.file);
+    let f = f.rsplit(':').next().unwrap_or(f);
     f.rsplit('.').next().unwrap_or("x").to_lowercase()
 }
 
@@ -619,8 +642,8 @@ fn judge_fault(run: &Run, c: &FaultCase, selftest: bool) -> CaseResult {
             // one, so code that treats it as "no more data" cannot tell the injected one apart: both mean the
             // operation saw a shorter asset, not an error.
             let eof_like = fired_on == Some(OpKind::Read) && matches!(c.plan.kind, FaultKind::ShortZero | FaultKind::UnexpectedEof);
-            let signing = c.op.kind == "sign" || c.op.kind == "hashflow";
-            let label = if signing { format!("-{}", ext_label(&c.op)) } else { String::new() };
+            let signing = matches!(c.op.kind.as_str(), "sign" | "resign" | "replace" | "hashflow");
+            let label = if signing || c.op.kind == "loadjumbf" { format!("-{}", ext_label(&c.op)) } else { String::new() };
             if eof_like {
                 if signing {
                     // The SDK signed the view that ended at the premature end-of-file. Recorded, not judged.
@@ -639,7 +662,7 @@ fn judge_fault(run: &Run, c: &FaultCase, selftest: bool) -> CaseResult {
             let fault = if c.plan.kind == FaultKind::ShortZero { format!("zero-{on}") } else { format!("{on}-error") };
             // reads / imports: two stages are enough to tell the code paths apart (the I/O of a hash pass starts
             // before its first callback, so finer phase names would split one cause over several signatures)
-            let stage = if signing {
+            let stage = if signing || c.op.kind == "loadjumbf" {
                 phase.clone()
             } else if phase.starts_with("Verifying") {
                 "validate".to_string()
@@ -785,6 +808,38 @@ fn main() {
         ops.push(IoOp::new("hashflow", fmt, f));
     }
 
+    // operations on sources that ALREADY carry a manifest: re-sign (old store replaced), the handlers' own
+    // write / load entry points. Small instances of every container from the shared synthesiser (signed by the
+    // harness) keep the call counts low enough for every k; the small real fixtures as well; thorough adds all
+    // real fixtures.
+    let mut presigned: Vec<(String, String)> = vec![];
+    for kind in vh::assets::KINDS {
+        let (mime, _) = vh::assets::kind_format(kind);
+        presigned.push((mime.to_string(), format!("signed:synth:{kind}|{mime}")));
+    }
+    for (_l, fmt, file) in &fixtures {
+        if !quick || asset(file).len() <= 120_000 {
+            presigned.push((fmt.to_string(), format!("signed:{file}|{fmt}")));
+        }
+    }
+    presigned.push(("audio/mpeg".into(), "signed:head64k:sample1.mp3|audio/mpeg".into()));
+    presigned.push(("audio/flac".into(), "signed:head64k:sample1.flac|audio/flac".into()));
+    let mut unusable = vec![];
+    for (fmt, file) in &presigned {
+        // a synthesised container the SDK cannot sign is left out (noted), not counted as inconclusive
+        let (f0, m0) = file.strip_prefix("signed:").and_then(|r| r.split_once('|')).unwrap_or((file, fmt));
+        if vh::catch(|| sdk::sign_simple(m0, &asset(f0), "probe").is_ok()).unwrap_or(false) {
+            for kind in ["resign", "replace", "loadjumbf"] {
+                ops.push(IoOp::new(kind, fmt, file));
+            }
+        } else {
+            unusable.push(file.clone());
+        }
+    }
+    if !unusable.is_empty() {
+        run.note(format!("sources left out of the pre-signed operations because the SDK does not sign them: {unusable:?}"));
+    }
+
     // references (also a determinism check of the comparison itself)
     let bad: Mutex<Vec<String>> = Mutex::new(vec![]);
     let next = std::sync::atomic::AtomicUsize::new(if run.replay.is_some() { usize::MAX / 2 } else { 0 });
@@ -806,7 +861,7 @@ fn main() {
     }
     if run.replay.is_none() {
         let mut cm = serde_json::Map::new();
-        for op in ops.iter().filter(|o| o.kind == "sign" || o.kind == "hashflow") {
+        for op in ops.iter().filter(|o| matches!(o.kind.as_str(), "sign" | "resign" | "hashflow")) {
             if let Ok((_, m)) = reference(op) {
                 cm.insert(op.name(), json!({"store_blanked_in_place": m[0], "store_removed_by_sdk": m[1]}));
                 if !m[0] && !m[1] {
@@ -822,7 +877,11 @@ fn main() {
     let mut ccases = vec![];
     for op in &ops {
         let size = asset(&op.file).len();
-        let targets: &[&str] = if op.kind == "sign" { &["source", "dest", "both"] } else { &["source"] };
+        let targets: &[&str] = match op.kind.as_str() {
+            "sign" | "replace" => &["source", "dest", "both"],
+            "resign" => &["source", "both"],
+            _ => &["source"],
+        };
         for t in targets {
             for mp in [1u32, 2, 3, 7, 0] {
                 // 1-byte pieces on MB-sized assets cost minutes: quick keeps them for assets <= 300 KB
@@ -861,7 +920,7 @@ fn main() {
     let (small_plan, large_plan) = if quick { ((300u64, 24u64), (40u64, 12u64)) } else { ((4000u64, 400u64), (1000u64, 200u64)) };
     let mut planned: Vec<(IoOp, &str, u64)> = vec![];
     for op in ops.iter().filter(|_| run.replay.is_none()) {
-        let targets: &[&str] = if op.kind == "sign" { &["source", "dest"] } else { &["source"] };
+        let targets: &[&str] = if matches!(op.kind.as_str(), "sign" | "resign" | "replace") { &["source", "dest"] } else { &["source"] };
         for t in targets {
             match op_count(op, t) {
                 Some(n) => {
@@ -879,8 +938,18 @@ fn main() {
         std::process::exit(2);
     }
     run.extra("fault_free_io_calls", serde_json::Value::Object(counts));
+    // one-shot kinds for the operations on already-signed sources (every k)
+    let kinds4: Vec<FaultPlan> = kinds.iter().filter(|p| !p.sticky && p.kind != FaultKind::WriteZero).copied().collect();
     for (op, t, n) in &planned {
-        let (all_upto, sample) = if asset(&op.file).len() <= 300_000 { small_plan } else { large_plan };
+        let presigned = matches!(op.kind.as_str(), "resign" | "replace" | "loadjumbf");
+        let (all_upto, sample) = if presigned {
+            (if quick { 1500 } else { 12_000 }, if quick { 24 } else { 400 })
+        } else if asset(&op.file).len() <= 300_000 {
+            small_plan
+        } else {
+            large_plan
+        };
+        let kinds = if presigned { &kinds4 } else { &kinds };
         let ks = ks_for(*n, all_upto, sample, &mut rng);
         if ks.len() as u64 == *n {
             run.count("ops_enumerated_completely");
@@ -889,7 +958,7 @@ fn main() {
         }
         let full: std::collections::BTreeSet<u64> = ks.iter().copied().collect();
         for k in ks {
-            for kp in &kinds {
+            for kp in kinds.iter() {
                 let mut plan = *kp;
                 plan.at = k;
                 fcases.push(FaultCase { op: op.clone(), target: t.to_string(), plan });
